@@ -334,6 +334,29 @@ class Checker:
             s1 = m.ConvertScalarToCurrent(Scalar(xs[0], u, cat))
             self.cmp("ConvertScalarToCurrent", case, s1.GetValue(), w0, S0)
             self.meta("ConvertScalarToCurrent", case, s1, cat, qt, v)
+            # the default unit of the current system is changed after a conversion was made: the next conversion of the
+            # same (category, source unit) goes to the new default unit
+            m.GetCurrent().SetDefaultUnit(cat, u)
+            g_same = m.ConvertToCurrent(cat, u, xs[0])
+            ctx.ev()
+            if tuple(g_same) != (xs[0], u):
+                ctx.record("route_disagrees:ConvertToCurrent(after SetDefaultUnit)", dict(case, route="usm-setdefault"), "after SetDefaultUnit(%r,%r) ConvertToCurrent(%r,%r,%r) returned %r" % (cat, u, cat, u, xs[0], g_same))
+            third = [i.unit for i in db.quantity_types[qt] if i.unit not in (u, v)]
+            if third:
+                w3 = third[len(u) % len(third)]
+                m.GetCurrent().SetDefaultUnit(cat, w3)
+                g3 = m.ConvertToCurrent(cat, u, xs[0])
+                want3 = Convert(qt, u, w3, xs[0])
+                self.cmp("ConvertToCurrent(after SetDefaultUnit to a third unit)", case, g3[0], [want3], [um.conv_scale(u, w3, xs[0]) + abs(want3)])
+                if g3[1] != w3:
+                    ctx.record("unit_wrong:ConvertToCurrent(after SetDefaultUnit)", dict(case, route="usm-setdefault"), "ConvertToCurrent returned unit %r, the current default is %r" % (g3[1], w3))
+                s3 = m.ConvertScalarToCurrent(Scalar(xs[0], u, cat))
+                self.cmp("ConvertScalarToCurrent(after SetDefaultUnit to a third unit)", case, s3.GetValue(), [want3], [um.conv_scale(u, w3, xs[0]) + abs(want3)])
+            m.GetCurrent().SetDefaultUnit(cat, v)
+            g_back = m.ConvertToCurrent(cat, u, xs[0])
+            self.cmp("ConvertToCurrent(after SetDefaultUnit back)", case, g_back[0], w0, S0)
+            s_back = m.ConvertScalarToCurrent(Scalar(xs[0], u, cat))
+            self.cmp("ConvertScalarToCurrent(after SetDefaultUnit back)", case, s_back.GetValue(), w0, S0)
             # an explicitly given database decides the numbers (it may define the units differently from the singleton)
             other = self.other_db()
             if other is not None and qt in other.quantity_types and u in other.unit_to_unit_info and v in other.unit_to_unit_info and other.IsValidCategory(cat) and other.unit_to_unit_info[u].quantity_type == qt == other.unit_to_unit_info[v].quantity_type and other.GetCategoryQuantityType(cat) == qt:
